@@ -102,6 +102,8 @@ Section Monitors.
     | y :: r, S n' => y :: set_nth_b n' x r
     end.
 
+  Definition done_idx (m : mst) (i : nat) : bool := existsb (fun p => Nat.eqb (fst p) i) (m_done m).
+
   (* the part of the op itself (before its observations) *)
   Definition rec_op (m : mst) (o : op) : mst :=
     match o with
@@ -133,13 +135,22 @@ Section Monitors.
              then m_polled m else m_polled m ++ [i])
             (m_disp m) (m_disp_dropped m) (m_handles m) (m_contract m)
     | DropCall i =>
-      if mem_nat i (m_closing m) then m else
+      (* only a live future can be dropped: the index exists, it has not finished, and it is
+         not already dropped or being dropped *)
+      if (length (m_calls m) <=? i)%nat || done_idx m i || mem_nat i (m_abandoned m)
+         || mem_nat i (m_closing m) then m else
       upd_m m (m_now m) (m_calls m) (m_done m) (m_abandoned m ++ [i]) (m_closing m)
             (m_polled m) (m_disp m) (m_disp_dropped m) (m_handles m) (m_contract m)
     | GuardClose i =>
-      if mem_nat i (m_closing m) || mem_nat i (m_abandoned m) then m else
-      upd_m m (m_now m) (m_calls m) (m_done m) (m_abandoned m) (m_closing m ++ [i])
-            (m_polled m) (m_disp m) (m_disp_dropped m) (m_handles m) (m_contract m)
+      if (length (m_calls m) <=? i)%nat || done_idx m i || mem_nat i (m_abandoned m)
+         || mem_nat i (m_closing m) then m
+      else if mem_nat i (m_polled m) then
+        upd_m m (m_now m) (m_calls m) (m_done m) (m_abandoned m) (m_closing m ++ [i])
+              (m_polled m) (m_disp m) (m_disp_dropped m) (m_handles m) (m_contract m)
+      else
+        (* never polled: there is no guard yet, the future simply goes away *)
+        upd_m m (m_now m) (m_calls m) (m_done m) (m_abandoned m ++ [i]) (m_closing m)
+              (m_polled m) (m_disp m) (m_disp_dropped m) (m_handles m) (m_contract m)
     | GuardCancel i =>
       if mem_nat i (m_closing m) then
         upd_m m (m_now m) (m_calls m) (m_done m) (m_abandoned m ++ [i])
@@ -178,7 +189,6 @@ Section Monitors.
     end.
   Definition sent_with_id (m : mst) (id : N) : list sentrec :=
     filter (fun s => s_id s =? id) (m_sent m).
-  Definition done_idx (m : mst) (i : nat) : bool := existsb (fun p => Nat.eqb (fst p) i) (m_done m).
   Definition rbody_eqb (a b : rbody) : bool :=
     match a, b with BOk v, BOk v' => v =? v' | BErr k, BErr k' => k =? k' | _, _ => false end.
   Definition tctx_eqb (a b : tctx) : bool :=
